@@ -40,7 +40,13 @@ def gen_resubmit(ch, prof):
         flags.append("--failed" if f else "--no-failed")
         flags.append("--missing" if m else "--no-missing")
         flags.append("--successful" if s else "--no-successful")
-        steps.append({"flags": flags})
+        step = {"flags": flags}
+        if g.flip(prof.get("p_group_edit", 0.0)):
+            # documented: jade config save-submission-groups, edit, resubmit-jobs -s groups.json
+            step["edit"] = {"walltime_x2": g.flip(0.5), "partition": g.pick([None, "debug", "long"]),
+                            "batch_size": g.pick([None, 1, 2, 5]), "nproc": g.pick([None, 1, 2]),
+                            "which": g.rint(0, 2)}
+        steps.append(step)
     sc["resubmit"] = steps
     # eager user: resubmits as soon as show-status says complete (the completing node and other
     # batches may still be in the queue), instead of waiting until everything has left the queue
@@ -63,6 +69,8 @@ class ResubmitDriver(Driver):
         self.steps = list(w.scenario.get("resubmit", []))
         self.pending = None
         self.history = []   # per resubmit command: dict(pre=..., vp=..., flags=...)
+        self.group_edits = {}
+        self.n_edits = 0
 
     def on_status(self, sub, o):
         w = self.w
@@ -79,6 +87,66 @@ class ResubmitDriver(Driver):
         if st and st.get("is_complete") and not any(v.alive and v.role == "resubmit-jobs" for v in self.w.vprocs):
             self.w.probe("resubmit_eager")
             self.after_complete(st)
+
+    def _edited_groups(self, edit):
+        """(reference groups after the edit, path of the groups file) - the file is what
+        `jade config save-submission-groups` writes (the cluster's groups), with the same edits."""
+        import copy
+        import json
+
+        w = self.w
+        sub = w.octx.sub_for_abs(w.output)
+        try:
+            cfg = state.read_json(os.path.join(w.output, "cluster_config.json"))
+        except state.Unparsable:
+            return None, None
+        if not cfg or sub is None:
+            return None, None
+        file_groups = copy.deepcopy(cfg["submission_groups"])
+        ref = copy.deepcopy(sub.sc.groups)
+        names = [g_["name"] for g_ in file_groups]
+        target = names[edit["which"] % len(names)]
+        for fg in file_groups:
+            if fg["name"] != target:
+                continue
+            rg = ref[target]
+            for params, hpc in ((fg["submitter_params"], fg["submitter_params"]["hpc_config"]["hpc"]),
+                                (rg["params"], rg["params"]["hpc_config"]["hpc"])):
+                if edit.get("walltime_x2"):
+                    h, m, sec = (int(x) for x in str(hpc["walltime"]).split(":"))
+                    tot = (h * 60 + m) * 2
+                    hpc["walltime"] = f"{tot // 60}:{tot % 60:02d}:00"
+                if edit.get("partition"):
+                    hpc["partition"] = edit["partition"]
+                if edit.get("batch_size") and not params.get("time_based_batching"):
+                    params["per_node_batch_size"] = edit["batch_size"]
+                if edit.get("nproc"):
+                    params["num_parallel_processes_per_node"] = edit["nproc"]
+            if edit.get("walltime_x2"):
+                rg["wall_min"] = rg["wall_min"] * 2
+        self.n_edits += 1
+        path = os.path.join(w.shared_root, f"groups_edit_{self.n_edits}.json")
+        with open(path, "w") as f:
+            json.dump(file_groups, f, indent=2)
+        return ref, path
+
+    def on_record(self, rec):
+        super().on_record(rec)
+        if self.group_edits and rec[2] == "lock_acquire" and rec[3] in self.group_edits \
+                and rec[4].get("path", "").endswith("/cluster_config.json.lock"):
+            # the command decides under this lock hold; if the submission is complete it will proceed with
+            # the edited groups, and every batch from now on is owed the new parameters
+            w = self.w
+            new_groups = self.group_edits.pop(rec[3])
+            try:
+                cfg = state.read_json(os.path.join(w.output, "cluster_config.json")) or {}
+            except state.Unparsable:
+                return
+            if cfg.get("is_complete") and cfg.get("submitter") is None:
+                sub = w.octx.sub_for_abs(w.output)
+                sub.sc.groups.clear()
+                sub.sc.groups.update(new_groups)
+                w.probe("resubmit_with_edited_groups")
 
     def after_complete(self, st):
         w = self.w
@@ -97,7 +165,15 @@ class ResubmitDriver(Driver):
             return False
         pre["events_dir"] = os.path.isdir(os.path.join(w.output, "events"))
         self.recoveries = []
-        vp = w.run_user_cmd(["jade", "resubmit-jobs", w.output] + step["flags"], tag="resubmit")
+        extra = []
+        new_groups = None
+        if step.get("edit"):
+            new_groups, path = self._edited_groups(step["edit"])
+            if new_groups is not None:
+                extra = ["-s", path]
+        vp = w.run_user_cmd(["jade", "resubmit-jobs", w.output] + step["flags"] + extra, tag="resubmit")
+        if new_groups is not None:
+            self.group_edits[vp.id] = new_groups
         self.history.append({"pre": pre, "vp": vp, "flags": step["flags"], "seq": w.seq})
         return True
 
@@ -473,6 +549,13 @@ profiles.profile("resubmit_cancel", mode="hpc", fault_free=True, no_liveness=Tru
                  extra_monitors=_extra, driver_cls=ResubmitDriver, max_jobs=6, p_reports=0.2, p_fail=0.45, max_steps=60000)
 profiles.PROFILE_PROPS["resubmit_cancel"] = ["C10"]
 profiles.CHECKS["C10"]["profiles"] = [("comp_cluster", 0.7), ("clean_hpc", 0.15), ("resubmit_cancel", 0.15)]
+profiles.profile("resubmit_groups", mode="hpc", fault_free=True, no_liveness=True, kind="world", gen=gen_resubmit,
+                 extra_monitors=_extra, driver_cls=ResubmitDriver, max_jobs=6, p_reports=0.2, p_fail=0.5, max_steps=60000,
+                 p_group_edit=0.7, full_slurm=True)
+profiles.PROFILE_PROPS["resubmit_groups"] = ["C07", "C18", "C06"]
+profiles.RULES["C07"] += ("; plus resubmissions with edited submission groups (jade config save-submission-groups, edit walltime / "
+                          "partition / batch size / processes per node, resubmit-jobs -s): every later batch is owed the edited "
+                          "group's parameters")
 profiles.profile("resubmit_limits", mode="hpc", fault_free=True, no_liveness=True, kind="world", gen=gen_resubmit_limits,
                  extra_monitors=_extra, driver_cls=ResubmitDriver, max_jobs=8, min_jobs=3, p_reports=0.2, p_fail=0.45,
                  max_steps=60000)
